@@ -15,6 +15,96 @@ open CfVerif
 about `Variant.fixed`; on the unrepaired source this obligation fails and the check reports the D9 / D17 witnesses -/
 theorem gen_variant_is_repaired : Variant.code = Variant.fixed := by decide
 
+/-- constants: the library's channels / port / limits against the protocol (Spec literals) -/
+theorem gen_constants : Gen.C06.chanRead = specChanRead ∧ Gen.C06.chanWrite = specChanWrite ∧ Gen.C06.chanInfo = 0 ∧
+    Gen.C06.portMem = 4 ∧ Gen.C06.maxDataSize = crtpMaxPayload ∧ Gen.C06.readMax ≤ readLimit ∧
+    Gen.C06.writeMax ≤ writeLimit ∧ 0 < Gen.C06.readMax ∧ 0 < Gen.C06.writeMax := by decide
+
+/-- `Crazyflie.send_packet` rejects oversized packets before anything else (modelled by `sendPacket`) -/
+theorem gen_send_check : Gen.C06.sendSizeCheck = "not pk.is_data_size_valid()" ∧
+    Gen.C06.dataSizeValid = "return self.available_data_size() >= 0" ∧
+    Gen.C06.availableDataSize = "return self.MAX_DATA_SIZE - self.get_data_size()" := by decide
+
+/-- `_ReadRequest`: what is packed, how the chunk length is chosen, how `add_data` advances -/
+theorem gen_read_request :
+    Gen.C06.readReqArgs = ["self.mem.id", "self._current_addr", "new_len"] ∧
+    Gen.C06.readExpArgs = ["pk.data[:-1]"] ∧
+    Gen.C06.readChunkCompares = ["new_len > _ReadRequest.MAX_DATA_LENGTH"] ∧
+    Gen.C06.readChunkAssigns = ["new_len = self._bytes_left", "new_len = _ReadRequest.MAX_DATA_LENGTH"] ∧
+    Gen.C06.readHeader = ["pk.set_header(CRTPPort.MEM, CHAN_READ)"] ∧
+    Gen.C06.readSend = ["self.cf.send_packet(pk, expected_reply=reply, timeout=1)"] ∧
+    Gen.C06.addDataTests = ["not addr == self._current_addr", "self._bytes_left > 0"] ∧
+    Gen.C06.addDataAugs = ["self.data += data", "self._bytes_left -= data_len", "self._current_addr += data_len"] ∧
+    Gen.C06.addDataReturns = ["return", "return False", "return True"] := by decide
+
+/-- `_WriteRequest`: what is packed, how the chunk is cut, how `write_done` advances, the progress expression -/
+theorem gen_write_request :
+    Gen.C06.writeHdrArgs = ["self.mem.id", "self._current_addr"] ∧ Gen.C06.writeExpArgs = ["pk.data"] ∧
+    Gen.C06.writeBodyFmt = "'B' * len(data)" ∧ Gen.C06.writeBodyArgs = ["*data"] ∧
+    Gen.C06.writeChunkCompares = ["new_len > _WriteRequest.MAX_DATA_LENGTH"] ∧
+    Gen.C06.writeChunkAssigns = ["new_len = len(self._data)", "new_len = _WriteRequest.MAX_DATA_LENGTH",
+      "data = self._data[:new_len]", "self._data = self._data[new_len:]",
+      "pk.data = struct.pack('<BI', self.mem.id, self._current_addr)", "self._addr_add = len(data)"] ∧
+    Gen.C06.writeChunkAugs = ["pk.data += struct.pack('B' * len(data), *data)", "self._bytes_left -= self._addr_add"] ∧
+    Gen.C06.writeHeader = ["pk.set_header(CRTPPort.MEM, CHAN_WRITE)"] ∧
+    Gen.C06.writeSend = ["self.cf.send_packet(pk, expected_reply=reply, timeout=1)"] ∧
+    Gen.C06.writeDoneTests = ["not addr == self._current_addr", "self._progress_cb is not None and self._write_len > 0",
+      "len(self._data) > 0"] ∧
+    Gen.C06.writeDoneAugs = ["self._current_addr += self._addr_add"] ∧
+    Gen.C06.progressExpr = ["new_progress = int(100 * (self._write_len - self._bytes_left) / self._write_len)"] ∧
+    Gen.C06.progressCalls = ["self._progress_cb(self._get_progress_message(), self._progress)"] ∧
+    Gen.C06.writeDoneReturns = ["return", "return False", "return True"] := by decide
+
+/-- `Memory.read` / `Memory.write`: the tests, the flush slice, append-then-start -/
+theorem gen_memory_api :
+    Gen.C06.memReadCompares = ["memory.id in self._read_requests"] ∧
+    Gen.C06.memReadAssigns = ["rreq = _ReadRequest(memory, addr, length, self.cf)", "self._read_requests[memory.id] = rreq"] ∧
+    Gen.C06.memReadReturns = ["return True", "return False"] ∧ Gen.C06.memReadCalls = ["rreq.start()"] ∧
+    Gen.C06.memWriteCompares = ["memory.id not in self._write_requests", "len(self._write_requests[memory.id]) == 1"] ∧
+    Gen.C06.memWriteAssigns = ["wreq = _WriteRequest(memory, addr, data, self.cf, progress_cb)",
+      "self._write_requests[memory.id] = []", "self._write_requests[memory.id] = self._write_requests[memory.id][:1]"] ∧
+    Gen.C06.memWriteCalls = ["self._write_requests[memory.id].append(wreq)", "wreq.start()"] ∧
+    Gen.C06.memWriteReturns = ["return True"] := by decide
+
+/-- the packet handlers: what is unpacked, the decisions, which request is started next, the callback arguments -/
+theorem gen_handlers :
+    Gen.C06.ackArgs = ["payload[0:5]"] ∧ Gen.C06.readReplyArgs = ["payload[0:5]"] ∧ Gen.C06.readDataArgs = ["payload[5:]"] ∧
+    Gen.C06.handleWriteCompares = ["id in self._write_requests", "len(self._write_requests[id]) > 0", "status == 0",
+      "len(self._write_requests[id]) > 0", "len(self._write_requests[id]) > 0"] ∧
+    Gen.C06.handleWriteCalls = ["wreq.write_done(addr)", "self._write_requests[id].pop(0)", "self._write_requests[id].pop(0)",
+      "self._write_requests[id][0].start()", "self._write_requests[id][0].start()",
+      "self.mem_write_cb.call(wreq.mem, wreq.addr)", "self.mem_write_failed_cb.call(wreq.mem, wreq.addr)"] ∧
+    Gen.C06.handleReadCompares = ["id in self._read_requests", "status == 0"] ∧
+    Gen.C06.handleReadCalls = ["rreq.add_data(addr, payload[5:])", "self._read_requests.pop(id, None)",
+      "self._read_requests.pop(id, None)", "self.mem_read_cb.call(rreq.mem, rreq.addr, rreq.data)",
+      "self.mem_read_failed_cb.call(rreq.mem, rreq.addr, rreq.data)"] ∧
+    Gen.C06.newPacketCompares = ["chan == CHAN_INFO", "chan == CHAN_WRITE", "chan == CHAN_READ"] ∧
+    Gen.C06.newPacketAssigns = ["chan = packet.channel", "cmd = packet.data[0]", "payload = packet.data[1:]"] ∧
+    Gen.C06.memInitCalls = ["self.cf.add_port_callback(CRTPPort.MEM, self._new_packet_cb)",
+      "self.cf.disconnected.add_callback(self._disconnected)"] := by decide
+
+/-- the disconnect handler: everything recorded is failed, reads first, then all queued writes -/
+theorem gen_disconnect :
+    Gen.C06.disconnectedBody = ["self._call_all_failed_callbacks()", "self._clear_state()"] ∧
+    Gen.C06.failAllCalls = ["self._read_requests.clear()", "self._write_requests.clear()",
+      "self.mem_read_failed_cb.call(rreq.mem, rreq.addr, rreq.data)", "self.mem_write_failed_cb.call(wreq.mem, wreq.addr)"] ∧
+    Gen.C06.failAllLoops = ["rreq in read_requests", "requests in self._write_requests.values()", "wreq in write_requests"] ∧
+    Gen.C06.failAllAugs = ["write_requests += requests"] := by decide
+
+/-- the `MemoryTester` client: the pattern, `flush_queue=True`, and how `Memory` wires its callbacks -/
+theorem gen_tester :
+    Gen.C06.testerNewDataCompares = ["mem.id == self.id", "actualValue != expectedValue"] ∧
+    Gen.C06.testerNewDataAssigns = ["actualValue = struct.unpack('<B', data[i:i + 1])[0]",
+      "expectedValue = start_address + i & 255", "self.readValidationSucess = False", "self._update_finished_cb = None"] ∧
+    Gen.C06.testerCbInsideLoop = true ∧ Gen.C06.testerLoop = "i in range(len(data))" ∧
+    Gen.C06.testerReadTests = ["not self._update_finished_cb"] ∧
+    Gen.C06.testerReadCalls = ["self.mem_handler.read(self, start_address, size)"] ∧
+    Gen.C06.testerWriteAssigns = ["self._write_finished_cb = write_finished_cb", "value = start_address + i & 255"] ∧
+    Gen.C06.testerWriteCalls = ["self.mem_handler.write(self, start_address, data, flush_queue=True)"] ∧
+    Gen.C06.testerWriteDoneTests = ["self._write_finished_cb and mem.id == self.id"] ∧
+    Gen.C06.testerWiring = ["self.mem_read_cb.add_callback(mem.new_data)", "self.mem_write_cb.add_callback(mem.write_done)"] := by
+  decide
+
 /-! ## quiescent_clean (lock part): whenever no call into Memory is executing the write lock is free -/
 
 /-- After ANY history of API calls, received packets (arbitrary bytes on any channel: duplicated, stale,
@@ -344,6 +434,26 @@ theorem oob_write_raises :
     (step Variant.fixed St.init (.write 1 0 4294967296 [1] false false)).res = .raised .structError ∧
     (step Variant.fixed St.init (.write 1 0 4294967296 [1] false false)).st.queueTags 0 = [1] ∧
     (step Variant.fixed St.init (.write 1 0 4294967296 [1] false false)).st.lock = false := by decide
+
+/-! ## The `MemoryTester` client -/
+
+/-- `write_data(start, size)` hands `Memory.write` exactly the pattern `(start + i) & 0xff`, `i < size`, with
+`flush_queue=True`; so by `write_exact_single` a completed tester write leaves that pattern in the device. -/
+theorem tester_write_pattern (v : Variant) (s : St) (t : Tester) (tag start size cb : Nat) :
+    (testerWrite v s t tag start size cb).2.st =
+      (memWrite v s tag t.id start ((List.range size).map fun i => UInt8.ofNat ((start + i) % 256)) true false).st ∧
+    (testerWrite v s t tag start size cb).2.outs =
+      (memWrite v s tag t.id start ((List.range size).map fun i => UInt8.ofNat ((start + i) % 256)) true false).outs :=
+  ⟨rfl, rfl⟩
+
+/-- observation (recorded, client level): `MemoryTester.new_data` calls the finished callback inside its loop over
+the data bytes, so a zero-length `read_data` is completed by `Memory` (`mem_read_cb` fires, see `reads_exactly_once`)
+but the tester's own callback never runs and every later `read_data` of that tester is silently ignored. -/
+theorem tester_zero_length_read_observation :
+    let r1 := testerRead St.init (Tester.new 2) 900 0 0 7
+    let s2 := step Variant.fixed r1.2.st (.pkt 1 [2, 0, 0, 0, 0, 0])
+    let t2 := testerReact r1.1 s2.outs
+    s2.outs = [.readOk 900 2 0 []] ∧ t2.2 = [] ∧ (testerRead s2.st t2.1 900 0 2 8).2.outs = [] := by decide
 
 /-! ## Non-vacuity -/
 
